@@ -865,7 +865,7 @@ pub fn run(tier: Tier, args: &[String]) -> i32 {
         "cross_process_history_comparisons": compared,
         "per_process": proc_results,
         "event_alphabet": crate::app::MENU_NAMES,
-        "app_programs": "the C09 app with redirects switched on: the legacy POST (43 header lines, body) goes through Redirect::new(2) and the Platform answer triggers a legacy GET with 6 headers through Redirect::default(); the shell's HTTP answers rotate through 201, 404, 302 + absolute Location, 200, 307 + relative Location, Io error, 301 + absolute Location by step number, so probe hops and final answers are covered",
+        "app_programs": "the C09 app with redirects switched on: the legacy POST (43 header lines, body) goes through Redirect::new(2) and the Platform answer triggers a legacy GET with 6 headers through Redirect::default(); the shell's HTTP answers rotate by step number through 201 and 200 with one header name reported on 3-4 lines in DIFFERENT spellings (Set-Cookie/set-cookie/SET-COOKIE, Vary x4) and two differently spelled content types with different charsets among 10 further names and a body that is not valid UTF-8, 404, 302 + absolute Location, 307 + relative Location, Io error, 301 + absolute Location, so probe hops and final answers are covered; the view records, per response, the values of every header name in the order the response holds them, the content type and the decoded body string",
         "history_alphabet": "as C09: menu event | answer(k) for every outstanding request k; includes Http (6 headers), Kv + legacy get, Timer / LTimer (timer ids renamed by the per-core ordinal), legacy Platform + HTTP POST",
         "compared": "FNV-1a 64 (fixed keys) chain over, per step and per bridge (bincode, JSON): outcome class, the returned batch re-encoded with canonical timer ids (re-encoding of the decoded batch is checked to reproduce the bridge's bytes exactly, so this is byte-for-byte up to timer ids), and the serialized view",
         "equality": {
